@@ -7,6 +7,7 @@ import (
 	"os"
 
 	"verif/engines/codec"
+	"verif/engines/mount"
 	"verif/engines/route"
 	"verif/engines/stress"
 	"verif/internal/mon"
@@ -27,6 +28,7 @@ var registry = map[string]entry{
 	"C16": {"route", "exploration", route.RunC16, route.ReplayC16},
 	"C17": {"codec", "exploration", codec.Run, codec.Replay},
 	"C19": {"route", "exploration", route.RunC19, route.ReplayC19},
+	"C20": {"mount", "exploration", mount.Run, mount.Replay},
 }
 
 func main() {
